@@ -13,6 +13,7 @@ R01q EIT*'s multi-resolution edge check, decided by interpreting isValidAtResolu
 import itertools
 from fractions import Fraction
 
+import re
 from engine import facts, paths, fd
 from engine.facts import AnalysisBroken
 from engine.shape import key, args, local_defs
@@ -1005,6 +1006,53 @@ def r01y(rep, F, rule='R01y'):
                             'the value handed to %s depends on %s, not only on %s, the vertex whose path is being registered' %
                             (cal, bad, X.split('#')[0]))
     rep.require_count(rule, 'values attached to solutions built from a vertex path', n, 6)
+
+
+def r01z(rep, F, rule='R01z'):
+    rep.rule(rule, 'fiber coordinate j of the R^N -> R^M projection is bundle coordinate j + M in every routine that relates the two (projectFiber, '
+                   'lift, computeFiberSpace): the difference between the bundle-side index and the fiber-side index of each paired access is, in '
+                   'linear normal form with locals resolved, exactly getBaseDimension().  Fiber bounds read at another offset give the fiber '
+                   'sampler the bounds of the wrong coordinates: with anisotropic bounds, vertices are created outside the planning space and '
+                   'end up on reported paths')
+    from engine import lin
+    fns = [f for f in F.functions if f.body and (f.record or '').endswith('Projection_RN_RM') and f.name.split('::')[-1] in ('projectFiber', 'lift', 'computeFiberSpace')]
+    if len(fns) < 3:
+        raise AnalysisBroken('R01z: Projection_RN_RM::{projectFiber, lift, computeFiberSpace} not all found')
+    n = 0
+    for f in fns:
+        env = lin.local_env(f)
+        for lp in [x for x in f.walk() if x['k'] == 'ForStmt' and x.get('body')]:
+            fib, bun = [], []
+            for x in f.walk(lp['body']):
+                idx = None
+                if x['k'] == 'ArraySubscriptExpr':
+                    base, idx = f.fp(x['ch'][0]), x['ch'][1]
+                elif (x.get('callee') or '').endswith('vector::at') or (x['k'] == 'CXXOperatorCallExpr' and x.get('oop') == '[]'):
+                    base, idx = f.fp(x['ch'][0]), (args(f, x)[0] if x['k'] == 'CXXMemberCallExpr' else x['ch'][1])
+                elif (x.get('callee') or '').split('::')[-1] in ('setLow', 'setHigh') and x['k'] == 'CXXMemberCallExpr':
+                    base, idx = f.fp(x['ch'][0]), args(f, x)[0]
+                if idx is None:
+                    continue
+                v = lin.lin(f, idx, env)
+                if v is None:
+                    continue
+                if re.search(r'Fiber', base):
+                    fib.append(v)
+                elif re.search(r'Bundle', base):
+                    bun.append(v)
+            if not fib or not bun:
+                continue
+            n += 1
+            d = dict(bun[0])
+            for k_, c_ in fib[0].items():
+                d[k_] = d.get(k_, 0) - c_
+            d = {k_: c_ for k_, c_ in d.items() if c_ != 0}
+            ok = len(d) == 1 and list(d.values())[0] == 1 and 'getBaseDimension' in str(list(d.keys())[0])
+            k = len([1 for o in rep.obl if o['rule'] == rule and o['function'] == f.name])
+            rep.add(rule, f.name, 'fiber-offset#%d' % k, ok, f.where(lp),
+                    'bundle index = fiber index + getBaseDimension()' if ok else
+                    'bundle index - fiber index = %s, not getBaseDimension(): the fiber is paired with the wrong bundle coordinates' % lin.show(d))
+    rep.require_count(rule, 'paired fiber / bundle accesses', n, 3)
 
 
 def r01u(rep, F):
